@@ -19,10 +19,12 @@ Definition I : W.list_iface := W.mk_list_iface (list Z)
   (fun l vs => (sll_add vs l, tt))         (* Append(values...) = Add *)
   (fun _ => ([], tt))                      (* Clear() *)
   (fun l => zlen l =? 0)                   (* Empty() *)
+  (fun _ d => (sll_add d [], false))       (* FromJSON(data): placeholder codec (bytes = the element list) *)
   (fun l i => opt_pair (sll_get i l))      (* Get(i) *)
   (fun l vs => (sll_prepend vs l, tt))     (* Prepend(values...) *)
   (fun l i => (sll_remove i l, tt))        (* Remove(i) *)
   (fun l => zlen l)                        (* Size() *)
+  (fun l => (l, false))                    (* ToJSON(): placeholder codec *)
   (fun l => l).                            (* Values() *)
 
 Notation content s := (W.list_ I s).
@@ -31,7 +33,7 @@ Module Names.
 Import Coq.Strings.String.
 (* OBLIGATION *)
 Theorem translated_functions :
-  W.translated = ["Clear"; "Dequeue"; "Empty"; "Enqueue"; "Peek"; "Size"; "Values"; "withinRange"]%string
+  W.translated = ["Clear"; "Dequeue"; "Empty"; "Enqueue"; "FromJSON"; "MarshalJSON"; "Peek"; "Size"; "ToJSON"; "UnmarshalJSON"; "Values"; "withinRange"]%string
   /\ W.skipped = ["New"; "String"]%string /\ W.not_selected = [].
 Proof. repeat split. Qed.
 Print Assumptions translated_functions.
